@@ -201,13 +201,13 @@ def ignoredHooks (v : α) : Hooks α :=
   { fromMeta? := some (fun _ => .ok v) }
 
 /-- `impl FromMeta for PathList` (stops at the first non-word) -/
-def pathListFromList (tok : String → α) : List NestedMeta → Outcome (List α)
+def pathListFromList {β : Type} (f : Path → β) : List NestedMeta → Outcome (List β)
   | [] => .ok []
-  | .item (.path p) :: rest => (pathListFromList tok rest).map (tok p.toks :: ·)
+  | .item (.path p) :: rest => (pathListFromList f rest).map (f p :: ·)
   | n :: _ => .err ((Err.new (.unexpectedType "non-word")).withSpan n.span)
 
 def pathListHooks (tok : String → α) (injL : List α → α) : Hooks α :=
-  { fromList? := some (fun items => (pathListFromList tok items).map injL) }
+  { fromList? := some (fun items => (pathListFromList (fun p => tok p.toks) items).map injL) }
 
 /-- `impl FromMeta for Callable` -/
 def callableHooks (tok : String → α) : Hooks α :=
